@@ -162,7 +162,7 @@ def execute(case):
     viol = None
     seen = set()
     for draw in case['draws']:
-        for ep in entry.ENTRY_POINTS:
+        for ep in [e_ for e_ in p1.entry_points() if e_ in p2.entry_points()]:
             o1 = p1.eval(ep, H.build_obj(case['x']), draw)
             o2 = p2.eval(ep, H.build_obj(case['x']), draw)
             c1, c2 = entry.classify(o1, p1.conf), entry.classify(o2, p2.conf)
